@@ -92,7 +92,10 @@ func (h *confHandler) Post(w http.ResponseWriter, r *http.Request) {
 	}
 
 	conf := make(map[string]interface{})
-	if err := json.Unmarshal(data, &conf); err != nil {
+	// Keep numbers as written: as float64 an integer above 2^53 would be rounded silently.
+	decoder := json.NewDecoder(bytes.NewReader(data))
+	decoder.UseNumber()
+	if err := decoder.Decode(&conf); err != nil {
 		h.rd.JSON(w, http.StatusBadRequest, err.Error())
 		return
 	}
